@@ -13,6 +13,7 @@ import (
 
 	"verif/internal/ev"
 	"verif/internal/memnet"
+	"verif/internal/refcodec"
 )
 
 // "No matter when it was requested relative to ... the termination itself": the first request of
@@ -21,7 +22,7 @@ import (
 
 type RaceCase struct {
 	N    int    `json:"n"`    // connections
-	Term string `json:"term"` // eof | read-error | local-close
+	Term string `json:"term"` // eof | read-error | local-close | garbage-notifier-running (CloseNotify requested and a message read since, then undecodable input: the reader closes the transport, which wakes the notifier routine while the reader runs its epilogue)
 	Skew int    `json:"skew"` // Gosched calls one side makes before it acts (negative: the requester waits)
 }
 
@@ -51,6 +52,21 @@ func runRace(c RaceCase) *ev.Failure {
 		if !mc.WaitParked(promptly) {
 			mc.Close()
 			return ev.Failf("harness-park", "connection %d: the reader did not park", i)
+		}
+		if c.Term == "garbage-notifier-running" {
+			ch := conn.(diam.CloseNotifier).CloseNotify()
+			mc.Feed(appMessage(0, false)) // read by the reader, which then starts the notifier routine
+			for k := 0; k < c.Skew+3; k++ {
+				runtime.Gosched()
+			}
+			mc.Feed(append(refcodec.EncodeHeader(refcodec.Header{Version: 1, Flags: 0x80, Code: 0xABCDEF, App: 77, Length: 60}), make([]byte, 40)...))
+			ok := closedWithin(ch, promptly)
+			mc.WaitClosed(promptly)
+			mc.Close()
+			if !ok {
+				return ev.Failf("never-fired", "connection %d of %d: CloseNotify requested, one message read, then undecodable input: the channel was not closed within %v", i, c.N, promptly)
+			}
+			continue
 		}
 		start := make(chan struct{})
 		var ch <-chan struct{}
@@ -96,9 +112,9 @@ func runRace(c RaceCase) *ev.Failure {
 
 var raceProp = ev.Register(&ev.Prop[RaceCase]{
 	ID: "C14", Name: "request-races-termination",
-	Rule: "200..600 connections per case: the first CloseNotify request (another goroutine) and the terminating event {EOF, read error, local Close} are released at the same instant, with a skew of -3..3 scheduler yields; the returned channel and the channel of a later request must both be closed within 3 s, and no library goroutine may remain; a schedule-dependent search: every case is non-trivial, detection is probabilistic",
+	Rule: "200..600 connections per case: the first CloseNotify request (another goroutine) and the terminating event {EOF, read error, local Close} are released at the same instant, with a skew of -3..3 scheduler yields; the returned channel and the channel of a later request must both be closed within 3 s, and no library goroutine may remain; or: CloseNotify requested, one message read (the notifier routine runs), then undecodable input, so that the reader's epilogue and the notifier routine announce the termination at the same time (a double close would end the process); a schedule-dependent search: every case is non-trivial, detection is probabilistic",
 	Gen: func(t *rapid.T) RaceCase {
-		return RaceCase{N: rapid.IntRange(200, 600).Draw(t, "n"), Term: rapid.SampledFrom([]string{"eof", "read-error", "local-close"}).Draw(t, "term"), Skew: rapid.IntRange(-3, 3).Draw(t, "skew")}
+		return RaceCase{N: rapid.IntRange(200, 600).Draw(t, "n"), Term: rapid.SampledFrom([]string{"eof", "read-error", "local-close", "garbage-notifier-running", "garbage-notifier-running"}).Draw(t, "term"), Skew: rapid.IntRange(-3, 3).Draw(t, "skew")}
 	},
 	Run:      runRace,
 	Classify: func(c RaceCase) (bool, []string) { return true, []string{"term:" + c.Term} },
